@@ -881,6 +881,22 @@ def removeUnusedOpsets (m : Model) : Model :=
     opsets := m.opsets.filter (fun kv => ("" :: doms m.graph ++ m.funcs.map (·.domain)).contains kv.1)
     funcs := m.funcs.map fun f => { f with opsets := f.opsets.filter fun kv => ("" :: doms f.body).contains kv.1 } }
 
+/-! ## `RewriteRuleSet(rules, commute=True)`: `RewriteRule.commute` / `GraphPattern.commute` -/
+
+def COMMUTATIVE_OPS : List String :=
+  ["Add", "Mul", "And", "Or", "Xor", "BitwiseAnd", "BitwiseOr", "BitwiseXor", "Equal", "Max", "Mean", "Min", "Sum"]
+
+def commuteChoices (pn : PNode) : List Bool :=
+  if pn.domain == "" && COMMUTATIVE_OPS.contains pn.op && pn.inputs.length == 2 then [false, true] else [false]
+
+/-- One rule per element of `itertools.product` over the pattern's nodes (the last node varies
+fastest): the pattern with the operands of the flagged commutative binary nodes swapped; matcher,
+condition, replacement, name, `remove_nodes`, `as_function` and the visitors are those of the rule. -/
+def commuteRule (r : Rule) : List Rule :=
+  (product (r.pat.nodes.map commuteChoices)).map fun sw =>
+    { r with pat := { r.pat with nodes := (r.pat.nodes.zip sw).map fun (pn, s) =>
+        if s then { pn with inputs := pn.inputs.reverse } else pn } }
+
 /-! ## `RewriteRuleSet.apply_to_model` and `rewrite()` -/
 
 mutual
